@@ -240,7 +240,7 @@ def emit_fide(m, nm, ch):
         out.append('<properties><graphics key="layout" value="horizontal"/></properties>')
     out.append('<struct>')
 
-    def rec(name, mandatory, is_root):
+    def rec(name, mandatory, is_root, ingroup=False):
         f = feat(m, name)
         rels = kmap.get(name, [])
         if not rels:
@@ -256,7 +256,8 @@ def emit_fide(m, nm, ch):
             attrs.append(('abstract', 'true'))
         elif ch['optattr'] == 'explicit':
             attrs.append(('abstract', 'false'))
-        if mandatory:
+        if mandatory or (ingroup and ch.get('groupmand')):
+            # inside an <alt>/<or> group FeatureIDE ignores the attribute; its own editor writes it there at times
             attrs.append(('mandatory', 'true'))
         elif ch['optattr'] == 'explicit' and not is_root:
             attrs.append(('mandatory', 'false'))
@@ -275,7 +276,7 @@ def emit_fide(m, nm, ch):
             out.append('<graphics key="collapsed" value="false"/>')
         for r in rels:
             for k in r['kids']:
-                rec(k, len(r['kids']) == 1 and (r['lo'], r['hi']) == (1, 1), False)
+                rec(k, len(r['kids']) == 1 and (r['lo'], r['hi']) == (1, 1), False, tag in ('alt', 'or'))
         out.append('</%s>' % tag)
     rec(m['root'], False, True)
     out.append('</struct>')
@@ -462,6 +463,17 @@ def emit_glencoe(m, nm, ch):
     def term(t):
         if t['op'] == 'VAR':
             return {'type': 'FeatureTerm', 'operands': [fid[t['v']]]}
+        if t['op'] in ('AND', 'OR', 'XOR') and ch.get('nary'):
+            flat = []
+
+            def walk(x):     # a left-nested chain of the same operator is one n-ary term
+                if x['op'] == t['op']:
+                    walk(x['l'])
+                    flat.append(x['r'])
+                else:
+                    flat.append(x)
+            walk(t)
+            return {'type': GL_OPS[t['op']], 'operands': [term(x) for x in flat]}
         ops = [term(t['l'])] + ([term(t['r'])] if t['r']['op'] != 'NIL' else [])
         return {'type': GL_OPS[t['op']], 'operands': ops}
     doc = {'id': 'FM_ref', 'name': 'FM_ref', 'features': feats, 'tree': tree(m['root']),
